@@ -66,6 +66,41 @@ func metaOf(i int) []s3c.KV {
 	return []s3c.KV{{K: "x-amz-meta-w", V: fmt.Sprint(i)}, {K: "Content-Type", V: fmt.Sprintf("text/w%d", i)}, {K: "x-amz-tagging", V: fmt.Sprintf("w=%d", i)}}
 }
 
+// attributeListing: a listing of the key's directory is a read of the key as well: it shows the key with the size and
+// ETag of one write, or not at all - and nothing else (no other key was ever stored below that prefix)
+func attributeListing(r *s3c.Resp) outcome {
+	o := outcome{Status: r.Status}
+	if r.Status != 200 {
+		o.Note = r.Code()
+		return o
+	}
+	var lr s3c.ListResult
+	if err := s3c.ParseXML(r, &lr); err != nil {
+		o.Torn = fmt.Sprintf("unparsable listing: %v", err)
+		return o
+	}
+	o.Status = 404
+	for _, e := range lr.Contents {
+		if e.Key != key {
+			o.Status = 200
+			o.Torn = fmt.Sprintf("the listing shows %q (%d bytes): no such key was ever stored", e.Key, e.Size)
+			return o
+		}
+		o.Status = 200
+		et := s3c.ETag(e.ETag)
+		for i := 1; i <= maxWrites; i++ {
+			if (et == writes[i].etag || et == writes[i].mpETag) && e.Size == int64(len(writes[i].body)) {
+				o.Val = i
+			}
+		}
+		if o.Val == 0 {
+			o.Torn = fmt.Sprintf("the listing shows the key with ETag %q and size %d: that is no write", et, e.Size)
+			return o
+		}
+	}
+	return o
+}
+
 // attributeTags: which write the tag set of the key belongs to (every write comes with the tag w=<its number>)
 func attributeTags(r *s3c.Resp) outcome {
 	o := outcome{Status: r.Status}
@@ -100,7 +135,7 @@ func putHdrs(i int) []s3c.KV {
 // ---- case ---------------------------------------------------------------------------
 
 type op struct {
-	Kind string `json:"kind"` // put | mpu | copy | delete | get | getsum | head | headsum (HEAD with checksum mode) | gettags (GetObjectTagging: every write has the tag w=<n>) | putparent | copyout (the key read by a CopyObject to a key of the operation's own)
+	Kind string `json:"kind"` // put | mpu | copy | delete | get | getsum | head | headsum (HEAD with checksum mode) | list (ListObjectsV2 of the key's directory) | gettags (GetObjectTagging: every write has the tag w=<n>) | putparent | copyout (the key read by a CopyObject to a key of the operation's own)
 	W    int    `json:"w,omitempty"`
 	Proc int    `json:"proc,omitempty"`
 }
@@ -445,6 +480,8 @@ func execA(c caseA) (hist []histOp, overlap bool, err error) {
 			r, err = cl.Call("HEAD", path, nil, []s3c.KV{{K: "x-amz-checksum-mode", V: "ENABLED"}}, nil)
 		case "gettags":
 			r, err = cl.Call("GET", path, s3c.Q("tagging", ""), nil, nil)
+		case "list":
+			r, err = cl.Call("GET", "/"+bkt, s3c.Q("list-type", "2", "prefix", parentKey+"/"), nil, nil)
 		case "copyout":
 			// a server-side copy reads the key like a GET does: what arrives at the destination (a key nobody else
 			// touches, read when the copy has answered) is what the copy read - body, ETag and metadata of one write
@@ -469,6 +506,8 @@ func execA(c caseA) (hist []histOp, overlap bool, err error) {
 			return ret{out: attribute(r, true)}
 		case "gettags":
 			return ret{out: attributeTags(r)}
+		case "list":
+			return ret{out: attributeListing(r)}
 		}
 		return ret{out: outcome{Status: r.Status, Note: r.Code()}}
 	}, c.Schedule)
@@ -551,7 +590,7 @@ func caseGen() *rapid.Generator[caseA] {
 		readers := 0
 		for i := 0; i < n; i++ {
 			var o op
-			o.Kind = rapid.SampledFrom([]string{"put", "put", "mpu", "copy", "delete", "get", "getsum", "getsum", "head", "put", "put", "mpu", "copy", "delete", "get", "getsum", "getsum", "head", "putparent", "copyout", "copyout", "gettags", "headsum", "headsum"}).Draw(t, "kind")
+			o.Kind = rapid.SampledFrom([]string{"put", "put", "mpu", "copy", "delete", "get", "getsum", "getsum", "head", "put", "put", "mpu", "copy", "delete", "get", "getsum", "getsum", "head", "putparent", "copyout", "copyout", "gettags", "headsum", "headsum", "list", "list"}).Draw(t, "kind")
 			if i == n-1 && readers == 0 {
 				o.Kind = rapid.SampledFrom([]string{"getsum", "getsum", "get", "head"}).Draw(t, "reader")
 			}
@@ -563,7 +602,7 @@ func caseGen() *rapid.Generator[caseA] {
 					o.W, avail = avail[0], avail[1:]
 				}
 			}
-			if o.Kind == "get" || o.Kind == "getsum" || o.Kind == "head" || o.Kind == "copyout" || o.Kind == "gettags" || o.Kind == "headsum" {
+			if o.Kind == "get" || o.Kind == "getsum" || o.Kind == "head" || o.Kind == "copyout" || o.Kind == "gettags" || o.Kind == "headsum" || o.Kind == "list" {
 				readers++
 			}
 			o.Proc = rapid.IntRange(0, c.Procs-1).Draw(t, "proc")
